@@ -14,6 +14,8 @@ import (
 	"sort"
 	"strings"
 	"sync"
+	"sync/atomic"
+	"time"
 
 	revresult "github.com/notaryproject/notation-core-go/revocation/result"
 	"github.com/notaryproject/notation-core-go/signature"
@@ -427,6 +429,9 @@ type vfixture struct {
 	hashAlg         digest.Algorithm
 }
 
+// number of cases per run whose expiry is realised as "just expired" (each waits about a second)
+var justExpiredBudget int32 = 48
+
 const critAttrKey = "io.verif.example/criticalAttr"
 
 // critical attribute keys: an unrelated one and ones that merely start like the plugin headers
@@ -658,7 +663,9 @@ func (fx *vfixture) envelope(vc vcase) []byte {
 	in := fx.in
 	ct := payloadTypeV1
 	if in.Env.PType != "notary" {
-		ct = "application/vnd.example.other+json"
+		// another media type: unrelated ones and near misses of the Notary payload type (they are different types all the same)
+		ct = []string{"application/vnd.example.other+json", payloadTypeV1 + "-seq", payloadTypeV1 + "ld", strings.TrimSuffix(payloadTypeV1, "+json"),
+			strings.Replace(payloadTypeV1, ".v1+", ".v2+", 1), "application/json"}[vc.sigMut%6]
 	}
 	attrKey := ""
 	for _, a := range fx.extAttrs {
@@ -678,6 +685,17 @@ func (fx *vfixture) envelope(vc vcase) []byte {
 		})
 	}
 	env := mk(key, payload)
+	if fx.expiry < 0 && vc.sigMut%16 == 5 && atomic.AddInt32(&justExpiredBudget, -1) >= 0 {
+		// "expired" realised as JUST expired: the expiry lies after the start of this process and before the verification
+		// (expiry is judged against the moment of verification, whenever the verifying process was started)
+		exp := time.Now().Add(1200 * time.Millisecond).Truncate(time.Second)
+		spec := EnvSpec{Format: vc.format, Chain: fx.chain, Scheme: fx.scheme, SigningTime: at(fx.signingTime), ExtAttrs: fx.extAttrs,
+			Payload: payload, ContentType: ct, Agent: "verif-harness/1", Expiry: exp}
+		env = SignEnvelope(spec)
+		if d := time.Until(exp.Add(60 * time.Millisecond)); d > 0 {
+			time.Sleep(d)
+		}
+	}
 	if fx.tsToken != nil {
 		env = WithTimestampToken(vc.format, env, fx.tsToken(SignatureValue(vc.format, env)))
 	}
